@@ -80,7 +80,7 @@ def gen_c04(seed):
 def gen_c14(seed):
     r = rnd(seed, "gen")
     n = r.choice((2, 2, 3, 4))
-    sharing = {"data_dict": r.random() < 0.7, "domains": r.random() < 0.5}
+    sharing = {"data_dict": r.random() < 0.7, "domains": r.random() < 0.5, "wrapped": r.random() < 0.4}
     conds = [gen_cond(r, i, kinds=("pinn", "pinn", "mean", "single", "adaptw", "periodic")) for i in range(n)]
     if sharing["data_dict"]:
         # the same user dictionary goes into every condition that takes data functions
